@@ -1,6 +1,6 @@
 """C17 (re-scan clause after a dyndep load, modular): Plan::UnmarkDependents (props/planunit.py)."""
 from engine.selftest import subst
-from props import planjobs
+from props import planjobs, scanjobs
 
 ID = "C17"
 USES_CPP = True
@@ -8,7 +8,10 @@ USES_CPP = True
 MANIFEST = {
     "level_claimed": {
         "category": "other",
-        "text": "One clause only, modular and bounded: when dyndep information is loaded during the build, Plan::UnmarkDependents (real text, recursion by contract) removes the "
+        "text": "Three clauses, modular and bounded. (1) DependencyScan::VerifyDAG (real text): reaching a statement that is on the visit stack is reported as a 'dependency cycle' whose message "
+                "starts and ends at the node that closed it and lists exactly the statements on the path, in order (given the DFS invariant of the stack); a statement that is not on the stack is never "
+                "reported (acyclic graphs are not rejected). (2) DependencyScan::RecomputeNodeDirty (real text, callees by contract): a statement is marked as on-the-stack and pushed while its inputs are "
+                "visited and marked finished and popped afterwards, so that (1) sees exactly the current path. (3) When dyndep information is loaded during the build, Plan::UnmarkDependents (real text, recursion by contract) removes the "
                 "'already scanned' mark of every planned consumer of the dyndep node and collects ALL outputs of each such edge for the re-scan, so that the re-scan - which "
                 "carries the cycle check - reaches every statement downstream of the new information, through every output. NOT decided: DependencyScan::VerifyDAG / "
                 "RecomputeNodeDirty themselves (C++17, outside the front end), cycles closed through depfiles or the deps log, that only real cycles are reported, termination.",
@@ -22,7 +25,7 @@ KEYS = ["M7"]
 
 
 def jobs(tier, mutant=None):
-    return planjobs.select(tier, KEYS, r'\bC17\b', mutant)
+    return planjobs.select(tier, KEYS, r'\bC17\b', mutant) + scanjobs.select(tier, ["S1", "S2"], r'\bC17\b', mutant)
 
 
 def _m(target, old, new):
@@ -35,6 +38,9 @@ MUTANTS = [
     ("first_output_only", _m("UnmarkDependents", "o != edge->outputs_.end(); ++o) {", "o != edge->outputs_.begin() + 1; ++o) {")),
     ("explicit_outputs_only", _m("UnmarkDependents", "o != edge->outputs_.end(); ++o) {", "o != edge->outputs_.end() - edge->implicit_outs_; ++o) {")),
     ("mark_not_cleared", _m("UnmarkDependents", "edge->mark_ = Edge::VisitNone;", ";")),
+    ("cycle_reported_from_stack_bottom", _m("VerifyDAG", "  *start = node;\n", "  start = stack->begin();\n  *start = node;\n")),
+    ("finished_edges_reported_as_cycles", _m("VerifyDAG", "if (edge->mark_ != Edge::VisitInStack)", "if (edge->mark_ == Edge::VisitNone)")),
+    ("edge_not_marked_in_stack", _m("RecomputeNodeDirty", "  edge->mark_ = Edge::VisitInStack;\n", "")),
     ("stops_at_first_unplanned", _m("UnmarkDependents", "    if (want_e == want_.end())\n      continue;\n", "    if (want_e == want_.end())\n      break;\n")),
 ]
 
@@ -48,11 +54,11 @@ def replay(job, ob, vals, scratch):
 
 def describe(tier):
     return {
-        "functions": ["build.cc:Plan::UnmarkDependents", "build.h:struct Plan"],
+        "functions": ["build.cc:Plan::UnmarkDependents", "build.h:struct Plan", "graph.cc:DependencyScan::VerifyDAG", "graph.cc:DependencyScan::RecomputeNodeDirty"],
         "checker_cmd": "goto-cc -std=c++11 unit.cc (slices + stubs + harness); cbmc a.gb --unwind N --unwinding-assertions + checks",
-        "trusted_base": planjobs.PLAN_TRUST,
+        "trusted_base": planjobs.PLAN_TRUST + scanjobs.TRUST,
         "bounds": {t: "a dyndep node with two consumers (2 outputs, one possibly implicit / 1 output); plan membership enumerated, marks symbolic" for t in ("quick", "thorough")},
         "assumptions": planjobs.PLAN_ASSUME + ["DependencyScan::RecomputeDirty re-visits exactly unmarked edges and runs VerifyDAG on them: by inspection (graph.cc, not under contract)"],
-        "silent": ["VerifyDAG reports an actual cycle and only real cycles", "cycles closed by depfile / deps-log information", "no command of a cycle runs", "never hangs / overflows the stack"],
+        "silent": ["that depfile / deps-log dependencies are inputs when the check runs (RecomputeEdgesInputsDirty, loaders)", "no command of a cycle runs", "never hangs / overflows the stack"],
         "explanation": "Postcondition of UnmarkDependents: closure of the re-scan set under 'planned consumer' and 'any output'.",
     }
